@@ -48,9 +48,13 @@ def main():
             "add_only": True,
         },
         "engines": [
-            {"name": "refsim", "path": "harness/refsim.py", "kind_free_text": "reference expression evaluator and sequential semantics", "serves_properties": ["C01","C02","C03","C04","C06","C07","C18","C19","C21","C27","C30","C31","C35","C37"]},
-            {"name": "reftt", "path": "harness/reftt.py", "kind_free_text": "reference temporal (time-triggered) semantics", "serves_properties": ["C05","C26","C28"]},
-            {"name": "gen", "path": "harness/gen.py", "kind_free_text": "Hypothesis grammar of problem specs with profiles", "serves_properties": []},
+            {"name": "refsim", "path": "harness/refsim.py", "kind_free_text": "reference expression evaluator and sequential semantics (independent of UP's walkers, simulator and state classes)", "serves_properties": ["C01","C02","C03","C04","C06","C07","C18","C19","C21","C27","C28","C29","C30","C31","C35"]},
+            {"name": "reftt", "path": "harness/reftt.py", "kind_free_text": "reference temporal (time-triggered) semantics", "serves_properties": ["C05","C19","C26","C28"]},
+            {"name": "refbfs", "path": "harness/refbfs.py", "kind_free_text": "exact breadth-first planner over refsim, registered as a unified_planning engine so that meta-engines can wrap it", "serves_properties": ["C30","C31"]},
+            {"name": "explore", "path": "harness/explore.py", "kind_free_text": "bounded exhaustive plan enumeration and guided search over refsim; PDDL3 trajectory semantics (harness/traj.py)", "serves_properties": ["C06","C07","C18","C27","C28","C30"]},
+            {"name": "gen", "path": "harness/gen.py", "kind_free_text": "Hypothesis grammar of problem specs with per-property profiles (harness/comp.py: per-compiler profiles, variants and weights)", "serves_properties": ["C01","C02","C03","C04","C05","C06","C07","C08","C09","C10","C11","C12","C13","C14","C18","C19","C20","C21","C22","C26","C27","C28","C29","C30","C31","C35","C38"]},
+            {"name": "digest", "path": "checks/c20.py", "kind_free_text": "structural digests of problems / plans / results, independent of UP's __eq__", "serves_properties": ["C20","C22"]},
+            {"name": "ma-reference", "path": "checks/c37.py", "kind_free_text": "multi-agent reference semantics (per-agent fluent resolution, Dot) with exhaustive state enumeration", "serves_properties": ["C37"]},
         ],
         "checks": checks,
         "not_applicable": na,
